@@ -270,4 +270,307 @@ mod verif_search {
         }
         println!("REPLAY-STATS c10_headers inputs={} all-ok", n);
     }
+
+    // independent reference for C09: HMAC-SHA1 written out over the SHA-1 primitive, textbook RC4, 1024 bytes dropped
+    fn ref_sha1(parts: &[&[u8]]) -> [u8; 20] { use sha1::{Digest, Sha1}; let mut h = Sha1::new(); for p in parts { h.update(p); } h.finalize().into() }
+    fn ref_hmac_sha1(key: &[u8], msg: &[u8]) -> [u8; 20] {
+        let mut k = [0u8; 64];
+        if key.len() > 64 { k[..20].copy_from_slice(&ref_sha1(&[key])); } else { k[..key.len()].copy_from_slice(key); }
+        let mut ipad = [0x36u8; 64]; let mut opad = [0x5cu8; 64];
+        for i in 0..64 { ipad[i] ^= k[i]; opad[i] ^= k[i]; }
+        let inner = ref_sha1(&[&ipad, msg]);
+        ref_sha1(&[&opad, &inner])
+    }
+    struct RefRc4 { s: [u8; 256], i: u8, j: u8 }
+    impl RefRc4 {
+        fn new(key: &[u8]) -> Self {
+            let mut s = [0u8; 256]; for i in 0..256 { s[i] = i as u8; }
+            let mut j = 0usize; for i in 0..256 { j = (j + s[i] as usize + key[i % key.len()] as usize) % 256; s.swap(i, j); }
+            RefRc4 { s, i: 0, j: 0 }
+        }
+        fn next(&mut self) -> u8 {
+            self.i = self.i.wrapping_add(1); self.j = self.j.wrapping_add(self.s[self.i as usize]); self.s.swap(self.i as usize, self.j as usize);
+            self.s[self.s[self.i as usize].wrapping_add(self.s[self.j as usize]) as usize]
+        }
+        fn wrath(constant: &[u8; 16], session_key: &[u8; 40]) -> Self { let mut r = Self::new(&ref_hmac_sha1(constant, session_key)); for _ in 0..1024 { r.next(); } r }
+    }
+    const REF_C2S: [u8; 16] = [0xC2, 0xB3, 0x72, 0x3C, 0xC6, 0xAE, 0xD9, 0xB5, 0x34, 0x3C, 0x53, 0xEE, 0x2F, 0x43, 0x67, 0xCE];
+    const REF_S2C: [u8; 16] = [0xCC, 0x98, 0xAE, 0x04, 0xE8, 0x97, 0xEA, 0xCA, 0x12, 0xDD, 0xC0, 0x93, 0x42, 0x91, 0x53, 0x57];
+    /// wire bytes of all four halves against the independent reference, for structured session keys (zero bytes at either end, all-equal
+    /// bytes, a single non-zero byte at every position) and random ones; traffic sent in several chunks, beyond 256 bytes
+    #[test]
+    fn verif_search_c09_wire() {
+        let seed = std::env::var("VERIF_SEED").ok().and_then(|s| s.parse::<u64>().ok()).unwrap_or(0) ^ 0x9E3779B97F4A7C15;
+        let mut rng = Rng(seed);
+        let mut keys: Vec<[u8; 40]> = Vec::new();
+        for v in [0u8, 1, 0x7f, 0x80, 0xff] { keys.push([v; 40]); }
+        for pos in 0..40 { let mut k = [0u8; 40]; k[pos] = 0xA7; keys.push(k); }
+        for zeros in 1..=8 { for tail in [true, false] {
+            let mut k = [0u8; 40]; for x in k.iter_mut() { *x = (rng.next() as u8) | 1; }
+            for z in 0..zeros { if tail { k[39 - z] = 0; } else { k[z] = 0; } }
+            keys.push(k);
+        } }
+        for _ in 0..40 { let mut k = [0u8; 40]; for x in k.iter_mut() { *x = rng.next() as u8; } keys.push(k); }
+        let mut n = 0u64;
+        for key in keys.iter() {
+            let mut server = ServerCrypto::new(*key);
+            let mut client = ClientCrypto::new(*key);
+            let mut ref_c2s = RefRc4::wrath(&REF_C2S, key);
+            let mut ref_s2c = RefRc4::wrath(&REF_S2C, key);
+            let mut ref_c2s_d = RefRc4::wrath(&REF_C2S, key);
+            let mut ref_s2c_d = RefRc4::wrath(&REF_S2C, key);
+            for len in [1usize, 6, 4, 300, 0, 19] {
+                let plain: Vec<u8> = (0..len).map(|_| rng.next() as u8).collect();
+                n += 1;
+                let mut a = plain.clone(); client.encrypt(&mut a);
+                let want: Vec<u8> = plain.iter().map(|b| b ^ ref_c2s.next()).collect();
+                if a != want { println!("REPLAY-FAIL c09_wire client->server bytes differ from independent HMAC-SHA1/RC4-drop1024 key={:02x?} chunk_len={}", key, len); return; }
+                server.decrypt(&mut a);
+                let back: Vec<u8> = want.iter().map(|b| b ^ ref_c2s_d.next()).collect();
+                if a != plain || back != plain { println!("REPLAY-FAIL c09_wire server does not recover client->server traffic key={:02x?} chunk_len={}", key, len); return; }
+                let mut b = plain.clone(); server.encrypt(&mut b);
+                let want: Vec<u8> = plain.iter().map(|x| x ^ ref_s2c.next()).collect();
+                if b != want { println!("REPLAY-FAIL c09_wire server->client bytes differ from independent HMAC-SHA1/RC4-drop1024 key={:02x?} chunk_len={}", key, len); return; }
+                client.decrypt(&mut b);
+                let back: Vec<u8> = want.iter().map(|x| x ^ ref_s2c_d.next()).collect();
+                if b != plain || back != plain { println!("REPLAY-FAIL c09_wire client does not recover server->client traffic key={:02x?} chunk_len={}", key, len); return; }
+            }
+        }
+        println!("REPLAY-STATS c09_wire inputs={} all-ok", n);
+    }
+
+    // ---- C11 / C12 / C10: every Wrath entry point (combined objects, halves, typed helpers, Read/Write wrappers, clone, split) against the
+    // independent RC4-drop1024 reference applied to the header's wire layout
+    struct FragReader<'a> { data: &'a [u8], pos: usize, fail_at: Option<usize>, kind: std::io::ErrorKind, rng: u64 }
+    impl<'a> std::io::Read for FragReader<'a> {
+        fn read(&mut self, buf: &mut [u8]) -> std::io::Result<usize> {
+            self.rng ^= self.rng << 13; self.rng ^= self.rng >> 7; self.rng ^= self.rng << 17;
+            if self.rng % 4 == 0 { return Err(std::io::Error::from(std::io::ErrorKind::Interrupted)); }
+            if let Some(f) = self.fail_at { if self.pos >= f { return Err(std::io::Error::from(self.kind)); } }
+            let limit = self.fail_at.unwrap_or(self.data.len()).min(self.data.len());
+            let avail = limit - self.pos;
+            if avail == 0 || buf.is_empty() { return Ok(0); }
+            let n = 1 + (self.rng as usize % avail.min(buf.len()));
+            buf[..n].copy_from_slice(&self.data[self.pos..self.pos + n]); self.pos += n; Ok(n)
+        }
+    }
+    struct FragWriter { got: Vec<u8>, fail_at: Option<usize>, kind: std::io::ErrorKind, rng: u64 }
+    impl std::io::Write for FragWriter {
+        fn write(&mut self, buf: &[u8]) -> std::io::Result<usize> {
+            self.rng ^= self.rng << 13; self.rng ^= self.rng >> 7; self.rng ^= self.rng << 17;
+            if self.rng % 4 == 0 { return Err(std::io::Error::from(std::io::ErrorKind::Interrupted)); }
+            if let Some(f) = self.fail_at { if self.got.len() >= f { return Err(std::io::Error::from(self.kind)); } }
+            if buf.is_empty() { return Ok(0); }
+            let room = self.fail_at.map(|f| f - self.got.len()).unwrap_or(buf.len()).min(buf.len());
+            let n = 1 + (self.rng as usize % room);
+            self.got.extend_from_slice(&buf[..n]); Ok(n)
+        }
+        fn flush(&mut self) -> std::io::Result<()> { Ok(()) }
+    }
+    const KINDS: [std::io::ErrorKind; 5] = [std::io::ErrorKind::UnexpectedEof, std::io::ErrorKind::TimedOut, std::io::ErrorKind::ConnectionReset, std::io::ErrorKind::BrokenPipe, std::io::ErrorKind::Other];
+    enum Cli { Whole(ClientCrypto), Halves(ClientEncrypterHalf, ClientDecrypterHalf) }
+    impl Cli {
+        fn e(&mut self) -> &mut ClientEncrypterHalf { match self { Cli::Whole(h) => h.encrypter(), Cli::Halves(e, _) => e } }
+        fn d(&mut self) -> &mut ClientDecrypterHalf { match self { Cli::Whole(h) => h.decrypter(), Cli::Halves(_, d) => d } }
+    }
+    enum Srv { Whole(ServerCrypto), Halves(ServerEncrypterHalf, ServerDecrypterHalf) }
+    impl Srv {
+        fn e(&mut self) -> &mut ServerEncrypterHalf { match self { Srv::Whole(h) => h.encrypter(), Srv::Halves(e, _) => e } }
+        fn d(&mut self) -> &mut ServerDecrypterHalf { match self { Srv::Whole(h) => h.decrypter(), Srv::Halves(_, d) => d } }
+    }
+    fn xor_ref(r: &mut RefRc4, data: &[u8]) -> Vec<u8> { data.iter().map(|b| b ^ r.next()).collect() }
+    fn server_layout(size: u32, opcode: u16) -> Vec<u8> {
+        if size > 0x7FFF { vec![((size >> 16) as u8) | 0x80, (size >> 8) as u8, size as u8, opcode as u8, (opcode >> 8) as u8] }
+        else { vec![(size >> 8) as u8, size as u8, opcode as u8, (opcode >> 8) as u8] }
+    }
+    fn parse_server(p: &[u8]) -> (u32, u16) {
+        if p.len() == 5 { ((((p[0] & 0x7f) as u32) << 16) | ((p[1] as u32) << 8) | p[2] as u32, u16::from_le_bytes([p[3], p[4]])) }
+        else { (((p[0] as u32) << 8) | p[1] as u32, u16::from_le_bytes([p[2], p[3]])) }
+    }
+    #[test]
+    fn verif_search_c11_wrath_entry_points() {
+        let seed = std::env::var("VERIF_SEED").ok().and_then(|s| s.parse::<u64>().ok()).unwrap_or(0) ^ 0x9E3779B97F4A7C15;
+        let mut rng = Rng(seed);
+        let mut n = 0u64;
+        let sizes = [0u32, 1, 4, 0xff, 0x100, 0x7ffe, 0x7fff, 0x8000, 0x8001, 0xffff, 0x1_0000, 0x12_3456, 0x40_0000, 0x7f_fffe, 0x7f_ffff];
+        let csizes = [0u16, 1, 4, 0xff, 0x100, 0x7fff, 0x8000, 0xffff];
+        let opcodes = [0u32, 1, 0xff, 0x100, 0xffff, 0x1_0000, 0x8000_0000, 0xffff_ffff, 0x1234_5678];
+        macro_rules! fail { ($($a:tt)*) => { { println!("REPLAY-FAIL c11_wrath_entry_points {}", format!($($a)*)); return; } } }
+        for session in 0..300u32 {
+            let mut sk = [0u8; 40]; for x in sk.iter_mut() { *x = rng.next() as u8; }
+            match session { 0 => sk = [0u8; 40], 1 => sk = [0xff; 40], 2 => { for z in 0..8 { sk[39 - z] = 0; } }, 3 => { for z in 0..8 { sk[z] = 0; } }, _ => {} }
+            // ---------------- client object: encrypts client->server, decrypts server->client
+            let mut re = RefRc4::wrath(&REF_C2S, &sk);
+            let mut rd = RefRc4::wrath(&REF_S2C, &sk);
+            let mut cli = Cli::Whole(ClientCrypto::new(sk));
+            for step in 0..40u32 {
+                n += 1;
+                let op = rng.next() % 12;
+                let via_whole = rng.next() % 2 == 0;
+                let size = csizes[(rng.next() % csizes.len() as u64) as usize];
+                let opcode = if rng.next() % 3 == 0 { rng.next() as u32 } else { opcodes[(rng.next() % opcodes.len() as u64) as usize] };
+                let ch: Vec<u8> = vec![(size >> 8) as u8, size as u8, opcode as u8, (opcode >> 8) as u8, (opcode >> 16) as u8, (opcode >> 24) as u8];
+                match op {
+                    0 => { let len = (rng.next() % 13) as usize; let plain: Vec<u8> = (0..len).map(|_| rng.next() as u8).collect();
+                        let want = xor_ref(&mut re, &plain); let mut buf = plain.clone();
+                        match &mut cli { Cli::Whole(h) if via_whole => h.encrypt(&mut buf), _ => cli.e().encrypt(&mut buf) }
+                        if buf != want { fail!("client encrypt of a {}-byte chunk differs from the reference (session {}, step {})", len, session, step); } }
+                    1 => { let len = (rng.next() % 13) as usize; let wire: Vec<u8> = (0..len).map(|_| rng.next() as u8).collect();
+                        let want = xor_ref(&mut rd, &wire); let mut buf = wire.clone();
+                        match &mut cli { Cli::Whole(h) if via_whole => h.decrypt(&mut buf), _ => cli.d().decrypt(&mut buf) }
+                        if buf != want { fail!("client decrypt of a {}-byte chunk differs from the reference (session {}, step {})", len, session, step); } }
+                    2 => { let want = xor_ref(&mut re, &ch);
+                        let got = match &mut cli { Cli::Whole(h) if via_whole => h.encrypt_client_header(size, opcode), _ => cli.e().encrypt_client_header(size, opcode) };
+                        if got.to_vec() != want { fail!("encrypt_client_header(size={:#x}, opcode={:#x}) != raw encrypt of be16(size) le32(opcode)", size, opcode); } }
+                    3 => { let want = xor_ref(&mut re, &ch);
+                        let mut w = FragWriter { got: Vec::new(), fail_at: None, kind: std::io::ErrorKind::Other, rng: rng.next() | 1 };
+                        let r = match &mut cli { Cli::Whole(h) if via_whole => h.write_encrypted_client_header(&mut w, size, opcode), _ => cli.e().write_encrypted_client_header(&mut w, size, opcode) };
+                        if r.is_err() || w.got != want { fail!("write_encrypted_client_header: result {:?}, {} of 6 bytes written / bytes differ", r.map_err(|e| e.kind()), w.got.len()); } }
+                    4 | 5 | 6 => { // a server header arrives: random wire bytes decide whether it is a short or a long one
+                        let wire: Vec<u8> = (0..5).map(|_| rng.next() as u8).collect();
+                        let mut probe = RefRc4 { s: rd.s, i: rd.i, j: rd.j };
+                        let p4 = xor_ref(&mut probe, &wire[..4]);
+                        let long = p4[0] & 0x80 != 0;
+                        let hl = if long { 5 } else { 4 };
+                        let plain = xor_ref(&mut rd, &wire[..hl]);
+                        let (ws, wo) = parse_server(&plain);
+                        let got = if op == 4 {
+                            let mut a = [0u8; 4]; a.copy_from_slice(&wire[..4]);
+                            let at = match &mut cli { Cli::Whole(h) if via_whole => h.attempt_decrypt_server_header(a), _ => cli.d().attempt_decrypt_server_header(a) };
+                            match at {
+                                WrathServerAttempt::Header(h) => { if long { fail!("attempt_decrypt_server_header returned a header although the first plaintext byte {:#04x} carries the marker", p4[0]); } h }
+                                WrathServerAttempt::AdditionalByteRequired => {
+                                    if !long { fail!("attempt_decrypt_server_header asked for a fifth byte although the first plaintext byte {:#04x} has no marker", p4[0]); }
+                                    // cloning between the two steps must carry the stashed bytes
+                                    if rng.next() % 2 == 0 { cli = match &cli { Cli::Whole(h) => Cli::Whole(h.clone()), Cli::Halves(e, d) => Cli::Halves(e.clone(), d.clone()) }; }
+                                    match &mut cli { Cli::Whole(h) if via_whole => h.decrypt_large_server_header(wire[4]), _ => cli.d().decrypt_large_server_header(wire[4]) }
+                                }
+                            }
+                        } else if op == 5 {
+                            let mut r = FragReader { data: &wire, pos: 0, fail_at: None, kind: std::io::ErrorKind::Other, rng: rng.next() | 1 };
+                            let g = match &mut cli { Cli::Whole(h) if via_whole => h.read_and_decrypt_server_header(&mut r), _ => cli.d().read_and_decrypt_server_header(&mut r) };
+                            if r.pos != hl { fail!("read_and_decrypt_server_header consumed {} bytes of a {}-byte header", r.pos, hl); }
+                            match g { Ok(h) => h, Err(e) => fail!("read_and_decrypt_server_header failed with {:?} on a complete header", e.kind()) }
+                        } else {
+                            // the reader fails at the fifth byte of a long header (or delivers a short header completely)
+                            let mut r = FragReader { data: &wire, pos: 0, fail_at: Some(4), kind: KINDS[(rng.next() % 5) as usize], rng: rng.next() | 1 };
+                            let g = match &mut cli { Cli::Whole(h) if via_whole => h.read_and_decrypt_server_header(&mut r), _ => cli.d().read_and_decrypt_server_header(&mut r) };
+                            match (g, long) {
+                                (Ok(h), false) => h,
+                                (Err(_), true) => match &mut cli { Cli::Whole(h) if via_whole => h.decrypt_large_server_header(wire[4]), _ => cli.d().decrypt_large_server_header(wire[4]) },
+                                (Ok(_), true) => fail!("read_and_decrypt_server_header succeeded although the reader failed at the fifth byte of a long header"),
+                                (Err(e), false) => fail!("read_and_decrypt_server_header failed with {:?} on a complete short header", e.kind()),
+                            }
+                        };
+                        if got.size != ws || got.opcode != wo { fail!("server header decoded as size={:#x} opcode={:#x}, plaintext {:02x?} means size={:#x} opcode={:#x} (path {})", got.size, got.opcode, plain, ws, wo, op); }
+                    }
+                    7 => { // reader failing within the first four bytes: error kind preserved, decrypter untouched
+                        let wire: Vec<u8> = (0..5).map(|_| rng.next() as u8).collect();
+                        let at = (rng.next() % 4) as usize; let kind = KINDS[(rng.next() % 5) as usize];
+                        let mut r = FragReader { data: &wire, pos: 0, fail_at: Some(at), kind, rng: rng.next() | 1 };
+                        let e = match &mut cli { Cli::Whole(h) if via_whole => h.read_and_decrypt_server_header(&mut r).err(), _ => cli.d().read_and_decrypt_server_header(&mut r).err() };
+                        match e { Some(e) if e.kind() == kind => {}, other => fail!("reader failing with {:?} after {} bytes: got {:?}", kind, at, other.map(|e| e.kind())) } }
+                    8 => { let at = (rng.next() % 6) as usize; let kind = KINDS[(rng.next() % 5) as usize];
+                        let mut w = FragWriter { got: Vec::new(), fail_at: Some(at), kind, rng: rng.next() | 1 };
+                        let r = cli.e().write_encrypted_client_header(&mut w, size, opcode);
+                        match r { Err(e) if e.kind() == kind => {}, other => fail!("client writer failing with {:?} after {} of 6 bytes: got {:?}", kind, at, other.map_err(|e| e.kind())) }
+                        break; }
+                    9 => { cli = match &cli { Cli::Whole(h) => Cli::Whole(h.clone()), Cli::Halves(e, d) => Cli::Halves(e.clone(), d.clone()) }; }
+                    _ => { cli = match cli { Cli::Whole(h) => { let (e, d) = h.split(); Cli::Halves(e, d) }, o => o }; }
+                }
+            }
+            // ---------------- server object: encrypts server->client, decrypts client->server
+            let mut re = RefRc4::wrath(&REF_S2C, &sk);
+            let mut rd = RefRc4::wrath(&REF_C2S, &sk);
+            let mut srv = Srv::Whole(ServerCrypto::new(sk));
+            for step in 0..40u32 {
+                n += 1;
+                let op = rng.next() % 10;
+                let via_whole = rng.next() % 2 == 0;
+                let size = sizes[(rng.next() % sizes.len() as u64) as usize];
+                let opcode = rng.next() as u16;
+                let sh = server_layout(size, opcode);
+                match op {
+                    0 => { let len = (rng.next() % 13) as usize; let plain: Vec<u8> = (0..len).map(|_| rng.next() as u8).collect();
+                        let want = xor_ref(&mut re, &plain); let mut buf = plain.clone();
+                        match &mut srv { Srv::Whole(h) if via_whole => h.encrypt(&mut buf), _ => srv.e().encrypt(&mut buf) }
+                        if buf != want { fail!("server encrypt of a {}-byte chunk differs from the reference (session {}, step {})", len, session, step); } }
+                    1 => { let len = (rng.next() % 13) as usize; let wire: Vec<u8> = (0..len).map(|_| rng.next() as u8).collect();
+                        let want = xor_ref(&mut rd, &wire); let mut buf = wire.clone();
+                        match &mut srv { Srv::Whole(h) if via_whole => h.decrypt(&mut buf), _ => srv.d().decrypt(&mut buf) }
+                        if buf != want { fail!("server decrypt of a {}-byte chunk differs from the reference (session {}, step {})", len, session, step); } }
+                    2 => { let want = xor_ref(&mut re, &sh);
+                        let got = match &mut srv { Srv::Whole(h) if via_whole => h.encrypt_server_header(size, opcode).to_vec(), _ => srv.e().encrypt_server_header(size, opcode).to_vec() };
+                        if got != want { fail!("encrypt_server_header(size={:#x}, opcode={:#x}) gives {} bytes, expected raw encrypt of the {}-byte layout {:02x?}", size, opcode, got.len(), sh.len(), sh); } }
+                    3 => { let want = xor_ref(&mut re, &sh);
+                        let mut w = FragWriter { got: Vec::new(), fail_at: None, kind: std::io::ErrorKind::Other, rng: rng.next() | 1 };
+                        let r = match &mut srv { Srv::Whole(h) if via_whole => h.write_encrypted_server_header(&mut w, size, opcode), _ => srv.e().write_encrypted_server_header(&mut w, size, opcode) };
+                        if r.is_err() || w.got != want { fail!("write_encrypted_server_header(size={:#x}): result {:?}, {} of {} bytes written / bytes differ", size, r.map_err(|e| e.kind()), w.got.len(), want.len()); } }
+                    4 | 5 => { let wire: Vec<u8> = (0..9).map(|_| rng.next() as u8).collect(); let p = xor_ref(&mut rd, &wire[..6]);
+                        let got = if op == 4 { let mut a = [0u8; 6]; a.copy_from_slice(&wire[..6]);
+                                match &mut srv { Srv::Whole(h) if via_whole => h.decrypt_client_header(a), _ => srv.d().decrypt_client_header(a) } }
+                            else { let mut r = FragReader { data: &wire, pos: 0, fail_at: None, kind: std::io::ErrorKind::Other, rng: rng.next() | 1 };
+                                let g = match &mut srv { Srv::Whole(h) if via_whole => h.read_and_decrypt_client_header(&mut r), _ => srv.d().read_and_decrypt_client_header(&mut r) };
+                                if r.pos != 6 { fail!("read_and_decrypt_client_header consumed {} bytes instead of 6", r.pos); }
+                                match g { Ok(h) => h, Err(e) => fail!("read_and_decrypt_client_header failed with {:?} on a complete header", e.kind()) } };
+                        if got.size != u16::from_be_bytes([p[0], p[1]]) || got.opcode != u32::from_le_bytes([p[2], p[3], p[4], p[5]]) { fail!("client header decoded as size={:#x} opcode={:#x} for plaintext {:02x?}", got.size, got.opcode, p); } }
+                    6 => { let wire: Vec<u8> = (0..6).map(|_| rng.next() as u8).collect();
+                        let at = (rng.next() % 6) as usize; let kind = KINDS[(rng.next() % 5) as usize];
+                        let mut r = FragReader { data: &wire, pos: 0, fail_at: Some(at), kind, rng: rng.next() | 1 };
+                        let e = match &mut srv { Srv::Whole(h) if via_whole => h.read_and_decrypt_client_header(&mut r).err(), _ => srv.d().read_and_decrypt_client_header(&mut r).err() };
+                        match e { Some(e) if e.kind() == kind => {}, other => fail!("server reader failing with {:?} after {} of 6 bytes: got {:?}", kind, at, other.map(|e| e.kind())) } }
+                    7 => { let at = (rng.next() % sh.len() as u64) as usize; let kind = KINDS[(rng.next() % 5) as usize];
+                        let mut w = FragWriter { got: Vec::new(), fail_at: Some(at), kind, rng: rng.next() | 1 };
+                        let r = srv.e().write_encrypted_server_header(&mut w, size, opcode);
+                        match r { Err(e) if e.kind() == kind => {}, other => fail!("server writer failing with {:?} after {} of {} bytes: got {:?}", kind, at, sh.len(), other.map_err(|e| e.kind())) }
+                        break; }
+                    8 => { srv = match &srv { Srv::Whole(h) => Srv::Whole(h.clone()), Srv::Halves(e, d) => Srv::Halves(e.clone(), d.clone()) }; }
+                    _ => { srv = match srv { Srv::Whole(h) => { let (e, d) = h.split(); Srv::Halves(e, d) }, o => o }; }
+                }
+            }
+        }
+        println!("REPLAY-STATS c11_wrath_entry_points inputs={} all-ok", n);
+    }
+
+    /// C06 fallback (bounded): the world-login proof against an independent SHA-1 composition, seeds in their roles, acceptance exactly for
+    /// the whole 20-byte proof, both proofs reported on refusal, crypto keyed with the presented session key
+    #[test]
+    fn verif_search_c06_wrath_world_login() {
+        use sha1::{Digest, Sha1};
+        let seed = std::env::var("VERIF_SEED").ok().and_then(|s| s.parse::<u64>().ok()).unwrap_or(0) ^ 0x9E3779B97F4A7C15;
+        let mut rng = Rng(seed);
+        let mut n = 0u64;
+        macro_rules! fail { ($($a:tt)*) => { { println!("REPLAY-FAIL c06_wrath_world_login_search {}", format!($($a)*)); return; } } }
+        let seeds = [0u32, 1, 0xffff_ffff, 0x0102_0304, 0x8000_0000, 0x0000_ff00];
+            for round in 0..150u32 {
+                let ulen = match round { 0 => 1, 1 => 16, _ => 1 + (rng.next() % 16) as usize };
+                let uname: String = (0..ulen).map(|_| (0x20 + (rng.next() % 0x5f) as u8) as char).collect();
+                let user = crate::normalized_string::NormalizedString::new(&uname).unwrap();
+                let mut sk = [0u8; 40]; for x in sk.iter_mut() { *x = rng.next() as u8; }
+                match round { 2 => sk = [0u8; 40], 3 => { for z in 0..8 { sk[39 - z] = 0; } }, 4 => { for z in 0..8 { sk[z] = 0; } }, _ => {} }
+                let cs = if round < 36 { seeds[(round % 6) as usize] } else { rng.next() as u32 };
+                let ss = if round < 36 { seeds[(round / 6) as usize] } else { rng.next() as u32 };
+                n += 1;
+                let want: [u8; 20] = Sha1::new().chain_update(uname.to_ascii_uppercase().as_bytes()).chain_update([0u8; 4]).chain_update(cs.to_le_bytes()).chain_update(ss.to_le_bytes()).chain_update(sk).finalize().into();
+                let (cp, mut cc) = ProofSeed::from_specific_seed(cs).into_client_header_crypto(&user, sk, ss);
+                if ProofSeed::from_specific_seed(cs).seed() != cs { fail!("{} ProofSeed::seed does not return the seed", "wrath"); }
+                if cp != want { fail!("{} client proof is not SHA1(U | 0 | client seed {:#x} | server seed {:#x} | K) user={:?}", "wrath", cs, ss, uname); }
+                let mut sc = match ProofSeed::from_specific_seed(ss).into_server_header_crypto(&user, sk, want, cs) { Ok(c) => c, Err(_) => fail!("{} server refused the correct proof (client seed {:#x}, server seed {:#x})", "wrath", cs, ss) };
+                for pos in 0..20 { for mask in [0x01u8, 0x80] { let mut bad = want; bad[pos] ^= mask;
+                    match ProofSeed::from_specific_seed(ss).into_server_header_crypto(&user, sk, bad, cs) {
+                        Ok(_) => fail!("{} server accepted a proof altered in byte {}", "wrath", pos),
+                        Err(e) => if e.client_proof != bad || e.server_proof != want { fail!("{} MatchProofsError does not carry (presented, computed) proofs", "wrath"); } } } }
+                { let mut bad = want; bad[0] ^= 0x40; bad[19] ^= 0x40; if ProofSeed::from_specific_seed(ss).into_server_header_crypto(&user, sk, bad, cs).is_ok() { fail!("{} server accepted a proof altered in two bytes by the same mask", "wrath"); } }
+                // the two objects are keyed alike: traffic round-trips in both directions
+                let plain: Vec<u8> = (0..23).map(|_| rng.next() as u8).collect();
+                let mut w = plain.clone(); cc.encrypt(&mut w); sc.decrypt(&mut w); if w != plain { fail!("{} client->server traffic does not round-trip after the world login", "wrath"); }
+                let mut w = plain.clone(); sc.encrypt(&mut w); cc.decrypt(&mut w); if w != plain { fail!("{} server->client traffic does not round-trip after the world login", "wrath"); }
+                // and with the presented session key: a peer keyed with a key differing in one byte does not decrypt it
+                let mut other = sk; other[(round % 40) as usize] ^= 0x20;
+                let (_, mut oc) = ProofSeed::from_specific_seed(cs).into_client_header_crypto(&user, other, ss);
+                let mut a = vec![0u8; 64]; let mut b = vec![0u8; 64]; cc.encrypt(&mut a); oc.encrypt(&mut b);
+                if a == b { fail!("{} crypto objects for session keys differing in byte {} produce the same 64 bytes", "wrath", round % 40); }
+            }
+        println!("REPLAY-STATS c06_wrath_world_login_search inputs={} all-ok", n);
+    }
 }
